@@ -283,7 +283,7 @@ func init() {
 }
 
 func init() {
-	reg("C11", func(ctx *Ctx, emit func(Case)) { genArmor(ctx, emit) },
+	reg("C11", func(ctx *Ctx, emit func(Case)) { genArmor(ctx, emit); genArmorWriter(ctx, ctx.R.Fork(), emit) },
 		[]string{"frames are measured after trimming surrounding white space (what parseFrame receives); bytes >= 0x80 never reach the frame parser (toASCII rejects them)"},
 		[]string{"regexp and strings.TrimSpace/Split of the Go standard library (re-implemented as recognisers, compared on enumerated and random strings)", "harness/cmd/corr"})
 }
